@@ -1447,7 +1447,8 @@ class ASTStubGenerator(BaseStubGenerator, mypy.traverser.TraverserVisitor):
         elif isinstance(rvalue, (IntExpr, FloatExpr)):
             return f"{rvalue.value}", True
         elif isinstance(rvalue, UnaryExpr):
-            if isinstance(rvalue.expr, (IntExpr, FloatExpr)):
+            # "not 1" must not be rendered as the identifier "not1"
+            if isinstance(rvalue.expr, (IntExpr, FloatExpr)) and rvalue.op in ("-", "+", "~"):
                 return f"{rvalue.op}{rvalue.expr.value}", True
         elif isinstance(rvalue, StrExpr):
             return repr(rvalue.value), True
